@@ -550,7 +550,7 @@ def render_dtype(st: Style, t: DType, scope_kind: str) -> List[Stmt]:
             group = [b]
             if t.multi_binding_stmt:
                 j = i + 1
-                while j < len(bs) and bs[j].generic is None and not bs[j].deferred_iface and bs[j].attrs == b.attrs and bs[j].access == b.access and not bs[j].doc and not b.doc:
+                while j < len(bs) and bs[j].generic is None and not bs[j].deferred_iface and bs[j].attrs == b.attrs and bs[j].access == b.access and bs[j].doc == b.doc:
                     group.append(bs[j])
                     j += 1
             a = [st.kw(x) for x in b.attrs] + ([st.kw(b.access)] if b.access else [])
